@@ -23,3 +23,13 @@ Theorem c01_macro_pass_implies_sat : forall regex join_ok parse_expr parse_path 
   sat (e_caller en) (e_units en) p val.
 Proof. exact macro_pass_implies_sat. Qed.
 Print Assumptions c01_macro_pass_implies_sat.
+
+(* ... and for the whole assertion, a root `_` included (it evaluates the asserted expression and reports nothing) *)
+Theorem c01_macro_assertion_reports_the_frontier : forall regex join_ok parse_expr parse_path parse_closure start ts v p code en val t fr,
+  front_end_from regex join_ok parse_expr parse_path parse_closure start ts = FEOk v p code ->
+  SemP.pat_ok (e_units en) p = true ->
+  eval en (VRoot (u_toks v)) = Some (val, t) ->
+  frontier (e_caller en) (e_units en) p val = Some fr ->
+  exists tr, exec_top join_ok p (u_toks v) en = Some (fr, tr).
+Proof. exact macro_assertion_reports_the_frontier. Qed.
+Print Assumptions c01_macro_assertion_reports_the_frontier.
